@@ -2,6 +2,7 @@ package command
 
 import (
 	"bufio"
+	"bytes"
 	"context"
 	"errors"
 	"io"
@@ -9,6 +10,7 @@ import (
 	"os"
 	"strconv"
 	"strings"
+	"sync"
 	"time"
 
 	"github.com/google/gopacket/layers"
@@ -358,9 +360,10 @@ func (o *ipPortScanCmdOpts) newIPPortGenerator() (reqgen scan.RequestGenerator) 
 			return os.Open(o.ipFile)
 		})
 	}
+	openStdin := newStdinOpener()
 	ipgen := scan.NewFileIPGenerator(func() (io.ReadCloser, error) {
 		if o.ipFile == "-" {
-			return io.NopCloser(os.Stdin), nil
+			return openStdin()
 		}
 		return os.Open(o.ipFile)
 	})
@@ -490,9 +493,10 @@ func (o *genericScanCmdOpts) newIPPortGenerator() (reqgen scan.RequestGenerator)
 			return os.Open(o.ipFile)
 		})
 	}
+	openStdin := newStdinOpener()
 	ipgen := scan.NewFileIPGenerator(func() (io.ReadCloser, error) {
 		if o.ipFile == "-" {
-			return io.NopCloser(os.Stdin), nil
+			return openStdin()
 		}
 		return os.Open(o.ipFile)
 	})
@@ -584,6 +588,24 @@ func parseIPFlags(inputFlags string) (result uint8, err error) {
 }
 
 type openFileFunc func() (io.ReadCloser, error)
+
+// newStdinOpener returns an opener for a list given on standard input.
+// The address list is read once per port, but stdin can be read only once,
+// so it is buffered on first use and every call gets a reader over the buffer.
+func newStdinOpener() openFileFunc {
+	var once sync.Once
+	var data []byte
+	var err error
+	return func() (io.ReadCloser, error) {
+		once.Do(func() {
+			data, err = io.ReadAll(os.Stdin)
+		})
+		if err != nil {
+			return nil, err
+		}
+		return io.NopCloser(bytes.NewReader(data)), nil
+	}
+}
 
 func parseExcludeFile(openFile openFileFunc) (excludeIPs scan.IPContainer, err error) {
 	input, err := openFile()
